@@ -330,6 +330,51 @@ def oracle_api_history(c):
     return None
 
 
+def oracle_lazy_requests(c):
+    """kevents() is lazy: a caller may hold several requests on ONE PyKdebugParser before reading any of them.  Whatever the
+    order in which they are read (one after the other in any order, or alternately), each request delivers exactly its dump's
+    records, and when all have been read the tables are exactly the thread map of the dump whose reading STARTED last — never
+    a mixture of several dumps' maps."""
+    from pykdebugparser.pykdebugparser import PyKdebugParser
+    p = PyKdebugParser()
+    tp, pn = prior_dicts(c['prior'])
+    p.threads_pids.update(tp)
+    p.pids_names.update(pn)
+    gens = [p.kevents(io.BytesIO(bytes.fromhex(h))) for h in c['hexes']]      # all requests made before any is read
+    got = [[] for _ in gens]
+    last_started = None
+    try:
+        if c['order'] == 'alternate':
+            live = list(range(len(gens)))
+            started = set()
+            while live:
+                for i in list(live):
+                    try:
+                        got[i].append(next(gens[i]))
+                    except StopIteration:
+                        live.remove(i)
+                    if i not in started:
+                        started.add(i)
+                        last_started = i
+        else:
+            for i in c['order']:
+                last_started = i
+                got[i] = list(gens[i])
+    except Exception as e:
+        return ('v2:raises@lazy', 'well-formed dumps read through requests made in advance raised ' + core.err_name(e), c)
+    for i, (f, evs) in enumerate(zip(c['files'], got)):
+        if [ct.ev_key(e) for e in evs] != [ct.dec_rec(bytes.fromhex(x)) for x in f['recs']]:
+            return ('v2:events@lazy', 'request %d of %d (all made before any was read, order %s) does not deliver exactly its '
+                    'dump\'s records' % (i + 1, len(gens), c['order']), c)
+    have = ct.show_tables(p.threads_pids, p.pids_names)
+    want = expected_tables(c['files'][last_started])
+    if have != want:
+        return ('v2:tables@lazy', '%d requests made on ONE PyKdebugParser before any was read, read in order %s: the tables are %s, '
+                'the thread map of the dump read last (request %d) is %s' % (len(gens), c['order'], have[:160], last_started + 1,
+                                                                           want[:160]), c)
+    return None
+
+
 def gen_trace_history(rng):
     """steps for formatted_traces on ONE PyKdebugParser: realistic dumps (pipeline.e2e_case), some cut inside a record."""
     from .. import pipeline as PL
@@ -568,6 +613,16 @@ def correspondence(rep, rng, tier):
     for _ in range(150 if quick else 3000):
         fs, hexes, kinds = gen_history(rng)
         api_hist.append({'files': fs, 'prior': gen_prior(rng), 'hexes': hexes, 'kinds': kinds})
+    lazy = []
+    for _ in range(120 if quick else 2500):
+        fs = [gen_file(rng, small=True) for _ in range(rng.randrange(2, 4))]
+        order = rng.choice(['alternate', list(range(len(fs))), list(reversed(range(len(fs)))), rng.sample(range(len(fs)), len(fs))])
+        lazy.append({'files': fs, 'prior': gen_prior(rng), 'hexes': [file_bytes(f).hex() for f in fs], 'order': order})
+    core.run_code_section(rep, 'v2-lazy-requests', lazy, oracle_lazy_requests,
+                          kind_fn=lambda c: c['order'] if isinstance(c['order'], str) else 'sequential',
+                          rule='code-only section: 2-3 kevents() requests made on ONE PyKdebugParser BEFORE any is read, then read '
+                               'one after the other in every order or alternately: each delivers exactly its records, and the tables '
+                               'end as exactly the thread map of the dump whose reading started last (never a mixture)')
     core.run_code_section(rep, 'v2-seq-api', api_hist, oracle_api_history,
                           kind_fn=lambda c: 'after-' + next(k for k in c['kinds'] if k != 'good'),
                           rule='code-only section: the same histories as v2-seq-failed as successive kevents() requests on ONE '
@@ -612,10 +667,12 @@ def replay(path):
     if sec == 'end-to-end':
         from .. import pipeline as _PL
         return _PL.replay_e2e(case, 'C02', path)
-    code_only = {'v2-seq-api': oracle_api_history, 'v2-seq-traces': oracle_trace_history, 'v2-blocks': oracle_blocks}
+    code_only = {'v2-lazy-requests': oracle_lazy_requests, 'v2-seq-api': oracle_api_history, 'v2-seq-traces': oracle_trace_history, 'v2-blocks': oracle_blocks}
     if sec in code_only:
         if sec == 'v2-blocks':
             print('history on ONE %s:' % ('PyKdebugParser (kevents)' if case['api'] else 'KdBufParser'), case['steps'])
+        elif sec == 'v2-lazy-requests':
+            print('%d kevents() requests made on ONE PyKdebugParser before any is read; read in order %s' % (len(case['hexes']), case['order']))
         elif sec == 'v2-seq-api':
             print('history on ONE PyKdebugParser (kevents):', list(zip(case['kinds'], [h[:160] for h in case['hexes']])))
         else:
